@@ -297,7 +297,7 @@ func storesTo(cell *ssa.Alloc) []*ssa.Store {
 // instrs iterates over all instructions of a function.
 func instrs(fn *ssa.Function, f func(b *ssa.BasicBlock, i int, in ssa.Instruction)) {
 	for _, b := range fn.Blocks {
-		if (activeSpec != nil || len(activeCellFlags) > 0) && specDead(b) {
+		if (activeSpec != nil || len(activeCellFlags) > 0 || len(activeParamFlags) > 0) && specDead(b) {
 			continue // not live under the flag value the rule is looking at (variants.go)
 		}
 		for i, in := range b.Instrs {
